@@ -360,6 +360,77 @@ Definition run_from_n (n : nat) (s0 : gst) (t : table) (miss : option nat) (argv
 Definition run_model (t : table) (miss : option nat) (argv : list str) : res (list event * nat) :=
   let* (p, _) := run_from init_state t miss argv in Ok p.
 
+(* ---- the indexing pass of a compiled GETOPT_SWITCH statement (macros of util/getopt.h) ----
+   A switch statement is described by its source lines, from the GETOPT_SWITCH line itself (line
+   offset 0 = dispatch slot 0) to the line before GETOPT_DEFAULT, which therefore is on line offset
+   [length lay] (= maxopts).  A line carries at most one label (two `case __LINE__:` on one line do
+   not compile).
+   While getopt_initialized == 0 the value switched on is getopt_ln++, and getopt_ln starts at
+   getopt_ln_min - 1: the line BEFORE the statement, where no label can be.  So the very first
+   probe reaches `default:` and calls getopt_setrange(maxopts) -- before any `case <line>:` of a
+   GETOPT_OPT / GETOPT_OPTARG / GETOPT_MISSING_ARG can run -- and sets getopt_default_missing.
+   Every later probe hits either the case of the label on that line (register, longjmp back) or
+   `default:` again (nothing left to do), until the probe of GETOPT_DEFAULT's own line sets
+   getopt_initialized = 1 and leaves the switch. *)
+Inductive lline :=
+| LNone                              (* no label on this line *)
+| LOpt (os : str) (hasarg : bool)    (* GETOPT_OPT(os) / GETOPT_OPTARG(os) *)
+| LMiss.                             (* GETOPT_MISSING_ARG *)
+Definition layout := list lline.
+
+(* one probe: the switch value is line offset ln, which carries l;
+   the boolean is getopt_default_missing *)
+Definition probe (maxopts : nat) (st : gst * bool) (ln : nat) (l : lline) : res (gst * bool) :=
+  let (s, dm) := st in
+  match l with
+  | LOpt os h => let* s := register_opt s os ln h in Ok (s, dm)
+  | LMiss => let* s := register_missing s ln in Ok (s, dm)
+  | LNone => if dm then Ok (s, dm) else (let* s := setrange s maxopts in Ok (s, true))
+  end.
+
+Fixpoint probes (maxopts : nat) (st : gst * bool) (ln : nat) (lay : layout) : res (gst * bool) :=
+  match lay with
+  | [] => Ok st
+  | l :: r => let* st := probe maxopts st ln l in probes maxopts st (S ln) r
+  end.
+
+(* first_probe = true: the code as it is (getopt_ln = getopt_ln_min - 1).  false: the pass started
+   on the GETOPT_SWITCH line itself -- only used to show what the first probe is needed for *)
+Definition index_pass_gen (first_probe : bool) (s : gst) (lay : layout) : res gst :=
+  let maxopts := length lay in
+  let* st := if first_probe then probe maxopts (s, false) 0 LNone else Ok (s, false) in
+  let* (s, _) := probes maxopts st 0 lay in
+  Ok (set_init true s).              (* case <line of GETOPT_DEFAULT>: getopt_initialized = 1 *)
+Definition index_pass := index_pass_gen true.
+
+(* the dispatch table a layout stands for: slot = line offset *)
+Definition table_of (lay : layout) : table :=
+  map (fun l => match l with LOpt os h => Some (os, h) | _ => None end) lay.
+Fixpoint miss_from (lay : layout) (ln : nat) : option nat :=
+  match lay with
+  | [] => None
+  | l :: r => match miss_from r (S ln) with
+              | Some m => Some m       (* a later GETOPT_MISSING_ARG overrides an earlier one *)
+              | None => match l with LMiss => Some ln | _ => None end
+              end
+  end.
+Definition miss_of (lay : layout) : option nat := miss_from lay 0.
+
+Definition start_switch (s0 : gst) (lay : layout) (argv : list str) : res gst :=
+  let* (s1, r) := getopt s0 argv in
+  match r with
+  | RDummy => index_pass s1 lay
+  | _ => AssertFail
+  end.
+
+Definition run_switch_from (s0 : gst) (lay : layout) (argv : list str) : res (list event * nat * gst) :=
+  let* s := start_switch s0 lay argv in loop (fuel_for argv) s argv.
+Definition run_switch_from_n (n : nat) (s0 : gst) (lay : layout) (argv : list str)
+  : res (list event * option nat * gst) :=
+  let* s := start_switch s0 lay argv in loop_n n s argv.
+Definition run_switch (lay : layout) (argv : list str) : res (list event * nat) :=
+  let* (p, _) := run_switch_from init_state lay argv in Ok p.
+
 (* ============================ SPEC ============================ *)
 (* Written from the comment at the top of util/getopt.h and the GETOPT_* macro comments. *)
 
@@ -500,3 +571,16 @@ Definition spec_coded (t : table) (miss : bool) (argv : list str) : list event *
   spec_from (cod_short t) (cod_long t) miss (tl argv) 1.
 
 Definition is_some {A} (o : option A) : bool := match o with Some _ => true | None => false end.
+
+(* ---- which tables the registration pass accepts (computable): going through the labels in
+   slot (= source line) order, each name is "-x" or "--long" and no EARLIER label's name is this
+   name or this name's part before an '=' -- i.e. searchopt finds nothing among the slots filled so
+   far.  A table that is not accepted makes getopt_register_opt DIE. ---- *)
+Fixpoint acceptb (done rem : table) : bool :=
+  match rem with
+  | [] => true
+  | None :: r => acceptb (done ++ [None]) r
+  | Some (os, h) :: r =>
+    valid_name os && negb (is_some (first_match done os)) && acceptb (done ++ [Some (os, h)]) r
+  end.
+Definition reg_accepts (t : table) : Prop := acceptb [] t = true.
